@@ -24,13 +24,18 @@ CFG = {'module': 'Dnp3.Props.C10',
          'emit, at every capacity and resumption point, is decoded by an independent decoder and compared '
          'with the mirrored reference database.',
  'trusted_base': ['hand-written Lean model Dnp3/Model/Measurement.lean of app/measurement.rs '
-                  '(to_i16/to_i32/to_f32), app/extensions.rs (wire flags), range/traits.rs (promote), '
+                  '(meaning of the guards / casts of to_i16/to_i32/to_f32; their branch lists are '
+                  'generated), app/extensions.rs (wire flags), range/traits.rs (promote), '
                   'event/write_fn.rs + event/writer.rs (common-time header switching), master/convert.rs + '
                   'master/extract.rs (common-time fold), tied by differential execution (engine convert: '
                   'handler output predicted line by line)',
                   'the 138 ToVariation/From impls of app/gen/conversion.rs are regenerated into '
                   'Gen/Conversions.lean on every run (tools/gen_conversions.py); model, driver and theorems '
-                  'interpret that table',
+                  'interpret that table; the same generator translates the default methods of trait '
+                  'AnalogConversions (app/measurement.rs: early-return guards is_nan / < MIN / > MAX, flag '
+                  'and value expressions, in source order; OVER_RANGE resolved through util/bit.rs; '
+                  'accessor and with_bits_set shapes checked) into Gen.Conv.analogConvs, which '
+                  'toI16/toI32/toF32 interpret',
                   'IEEE-754 f64->f32 rounding: the model computes it by integer round-to-nearest-even '
                   '(f64ToF32Bits) and cross-checks the value the harness supplies from its own integer '
                   'implementation, which is self-checked against the host FPU on every value; the theorems '
@@ -51,12 +56,14 @@ CFG = {'module': 'Dnp3.Props.C10',
                  'configured: the library promotes only g1v1/g3v1/g10v1 (counted in partition '
                  'obs_flagless_variation_dropped_non_online_flags)'],
  'level_text': 'Lean theorems for ALL values about the conversion model: integer saturation = clamp(trunc) '
-               'with OVER_RANGE iff out of range and no wrap / sign flip; NaN witness (D11); 16-bit counters '
+               'with OVER_RANGE iff not representable (NaN and +-inf included: NaN -> 0 + OVER_RANGE, former '
+               'D11 repaired) and no wrap / sign flip; integers of the range arrive unchanged; 16-bit counters '
                '= value mod 65536; packed variations only for plainly ONLINE points and the flagged '
                'variation carries the whole octet; common-time reconstruction for every event list in any '
                'order with the exact header-switch rule; per-variation round trip = carry over every row of '
                'the regenerated conversions table against a hand-written object-library specification. Tie: '
-               'conversion.rs regenerated each run + object-level differential execution database -> '
+               'conversion.rs and the AnalogConversions branch lists regenerated each run + object-level '
+               'differential execution database -> '
                'handler, exhaustive over (type x configured x requested variation)',
  'level_note': 'trusted: Lean kernel (+ propext/Classical.choice/Quot.sound), '
                'translate.py/gen_conversions.py, the correspondence harness; the Rust is modelled, not '
